@@ -139,7 +139,7 @@ def withNode (tok : String) (f : Node → String) : Option String :=
   | some (.error e) => some ("err " ++ e.tag)
   | some (.ok n) => some (f n)
 
-def handle : Handler := fun op args =>
+def handle1 : Handler := fun op args =>
   match op, args with
   | "bip32_master", [k, seed] => do
     some (showR showNode (fromMasterSecret gen (← parseKind? k) (← parseHex? seed)))
@@ -255,5 +255,11 @@ def handle : Handler := fun op args =>
     | .error e => some ("err " ++ e.tag)
     | .ok w => some (showR showWallet (w.subkey gen path))
   | _, _ => none
+
+/-- `c09pure <op> …`: the same op evaluated by the implementation under `PYCOIN_NATIVE=none`; the model is the same -/
+def handle : Handler := fun op args =>
+  match op, args with
+  | "c09pure", op' :: args' => handle1 op' args'
+  | _, _ => handle1 op args
 
 end Pycoin.Driver.C09
